@@ -373,10 +373,10 @@ func (m *model) consume(step string, entries []logEntry, tc *tickCtx) *prog.Fail
 				}
 				sig := "missed-after-notice"
 				switch { // witness circumstances since the assignment was last fetched
-				case vDrift:
-					sig = "missed-after-notice-with-clock-behind-ticker"
 				case vSkip:
 					sig = "missed-after-notice-and-skipped-tick"
+				case vDrift:
+					sig = "missed-after-notice-with-clock-behind-ticker"
 				case vLate:
 					sig = "missed-after-late-notice"
 				}
